@@ -51,7 +51,7 @@ func (C12) Components() ([]string, []string) {
 }
 func (C12) Assumptions() []string {
 	return []string{
-		"not generated because the property does not settle them: a verb-less method-level @RequestMapping(\"/x\"), a mapping annotation written before the controller annotation, class-level @RequestMapping without arguments",
+		"not generated because the property does not settle them: a verb-less method-level @RequestMapping(\"/x\"), class-level @RequestMapping without arguments",
 		"MethodParams and ResponseStatus of an entry are not compared (the property does not mention them)",
 	}
 }
